@@ -1044,6 +1044,63 @@ ASSUMES = ["keys and str values are printable ASCII without consecutive blanks i
            "-0.0 and 0.0 are identified; all NaNs are one value"]
 
 
+def prebuild_keys(ctx):
+    """Write coq/Gen/C17Keys.v: every dict key that the to_dict methods of the registered classes
+    emit on sample objects (plus the '_dict_*' names in simulations.py), read from the CURRENT source.
+    Props/C17.v proves that all of them satisfy the key guard of the three formats."""
+    import re
+    import emg3d
+    from emg3d import io
+    rep = V.REPO
+    keys = []
+
+    def walk(d):
+        for k, v in d.items():
+            if k not in keys:
+                keys.append(k)
+            if isinstance(v, dict):
+                walk(v)
+    hx = np.array([1., 2., 3., 4.])
+    grid = emg3d.TensorMesh([hx, hx, hx], (0, 0, 0))
+    model = emg3d.Model(grid, property_x=np.ones(grid.shape_cells), property_y=2., property_z=3.,
+                        mu_r=1.5, epsilon_r=2.5, mapping='Conductivity')
+    srcs = [emg3d.TxElectricPoint((1, 2, 3, 0, 0)), emg3d.TxMagneticPoint((1, 2, 3, 0, 0)),
+            emg3d.TxElectricDipole((1, 2, 3, 0, 0), length=2.), emg3d.TxElectricDipole((0, 9, 1, 1, 2, 2)),
+            emg3d.TxMagneticDipole((1, 2, 3, 0, 0), length=2.),
+            emg3d.TxElectricWire([[0, 0, 0], [1, 1, 1], [2, 3, 4]])]
+    recs = [emg3d.RxElectricPoint((1, 2, 3, 0, 0)), emg3d.RxMagneticPoint((1, 2, 3, 0, 0), relative=True)]
+    shape = (len(srcs), len(recs), 2)
+    survey = emg3d.Survey(srcs, recs, [1., 2.], data={'observed': np.ones(shape) + 0j, 'extra': np.ones(shape)},
+                          noise_floor=np.ones(shape), relative_error=np.ones(shape) / 2,
+                          name='n', date='d', info='i')
+    survey.standard_deviation = np.ones(shape)
+    sim = emg3d.Simulation(survey, model, gridding='same', max_workers=1, verb=0, tqdm_opts=False)
+    for o in [grid, model, emg3d.Field(grid, frequency=1.), survey, sim] + srcs + recs:
+        d = o.to_dict('all') if type(o).__name__ == 'Simulation' else o.to_dict()
+        walk(io._dict_serialize({'o': d}))
+    src = open(os.path.join(rep, 'emg3d', 'simulations.py')).read()
+    for k in re.findall(r"'(_dict_\w+)'", src):
+        if k not in keys:
+            keys.append(k)
+    keys += [k for k in META + ('synthetic', 'residual', 'weights', 'gradient', 'misfit', 'computed')
+             if k not in keys]
+    if len(keys) < 40:
+        raise RuntimeError(f"only {len(keys)} keys extracted from the classes' to_dict")
+    text = ("(* GENERATED by py/props/c17.py (prebuild_keys) from the to_dict methods of the classes in\n"
+            "   emg3d.utils._KNOWN_CLASSES of the current source.  Do not edit. *)\n"
+            "From Coq Require Import String List.\nImport ListNotations.\nLocal Open Scope string_scope.\n"
+            "Definition emg3d_keys : list string :=\n  [" + ";\n   ".join(V.coq_str(k).replace('%string', '')
+                                                                          for k in keys) + "].\n")
+    p = os.path.join(V.COQ, 'Gen', 'C17Keys.v')
+    os.makedirs(os.path.dirname(p), exist_ok=True)
+    if not os.path.exists(p) or open(p).read() != text:
+        with open(p, 'w') as f:
+            f.write(text)
+
+
+PREBUILD = [prebuild_keys]
+
+
 def features(d, acc=None, depth=1):
     acc = acc if acc is not None else {'depth': 1, 'kinds': set(), 'mal': set()}
     acc['depth'] = max(acc['depth'], depth)
